@@ -757,11 +757,13 @@ func (s *appStream) genBlock(r *tr.Rng) {
 		if s.processed {
 			sim.EngineBarrier()
 		}
+		blockTime := sim.NextTime()
 		probe, perr := sim.Finalize(sim.ProposerAddr(proposerIdx), txs, votes, evidence)
 		sim.EngineBarrier()
 		if err := sim.Restart(); err != nil {
 			panic(err)
 		}
+		sim.SetNextTime(blockTime) // a restart before the first commit replays InitChain, which forgets the time chosen for this block
 		if perr == nil && probe.TxResults[0].Code == 0 && probe.TxResults[0].GasUsed > 8000 {
 			g := uint64(probe.TxResults[0].GasUsed)
 			cut := uint64(1 + r.Intn(2800)) // inside the last store write (2000 flat + 30 per byte of a 32-byte value)
